@@ -374,7 +374,8 @@ TReset ==
   /\ l' = l + 1 /\ pos' = ZeroPos /\ cnt' = ZeroPos /\ sdone' = {} /\ gone' = {} /\ kicked' = {} /\ skipd' = {} /\ carry' = NoCarry
 
 \* end of a scenario: every client closed, the driver waited for the daemon's descriptor table to settle
-TFinal == /\ l <= Len(Log) /\ Ev.e = "Final" /\ Ev.fdleak = 0 /\ l' = l + 1
+\* (a start still under way keeps the channel to its helper process open)
+TFinal == /\ l <= Len(Log) /\ Ev.e = "Final" /\ (Ev.fdleak = 0 \/ act.pend # <<>>) /\ l' = l + 1
           \* the start log written by the started processes themselves: never more starts than the specification
           \* counts (fewer are possible here: the driver's stand-in may take the name before the forked helper has
           \* executed the program, and the daemon then reaps the helper)
